@@ -93,13 +93,14 @@ type Result struct {
 
 // Rec is the per-run recorder handed to a scenario's interpreter.
 type Rec struct {
-	Focus   string
-	KeepLog bool
-	res     Result
-	logH    hash.Hash
-	schedH  hash.Hash
-	states  map[string]bool
-	step    int
+	Focus     string
+	KeepLog   bool
+	wallClock bool
+	res       Result
+	logH      hash.Hash
+	schedH    hash.Hash
+	states    map[string]bool
+	step      int
 }
 
 func NewRec(focus string, keepLog bool) *Rec {
@@ -165,8 +166,19 @@ func (r *Rec) HasViolation(property string) bool {
 
 func (r *Rec) Violations() []Violation { return r.res.Violations }
 
+// MarkWallClockProbe: the run deliberately fed the system a value taken from the real clock (a header
+// stamped "now + 4 s") to see whether block processing looks at the wall clock (C14). Its event log is
+// therefore not comparable between executions; the fingerprint is replaced by a constant.
+func (r *Rec) MarkWallClockProbe() { r.wallClock = true }
+
+// WallClockProbe reports whether MarkWallClockProbe was called.
+func (r *Rec) WallClockProbe() bool { return r.wallClock }
+
 func (r *Rec) Finish() *Result {
 	r.res.LogHash = hex.EncodeToString(r.logH.Sum(nil)[:16])
+	if r.wallClock {
+		r.res.LogHash = "wall-clock-probe"
+	}
 	r.res.SchedHash = hex.EncodeToString(r.schedH.Sum(nil)[:16])
 	for s := range r.states {
 		r.res.States = append(r.res.States, s)
